@@ -83,7 +83,7 @@ func verifC04Inv(db *DB, pageN uint32, newWAL map[uint32]ltx.Checksum, lock uint
 	return ok
 }
 
-var verifC04Shapes = []int{0, 1, 3, 257, 256, 2, 255, 258, 511, 512, 513}
+var verifC04Shapes = []int{0, 1, 3, 257, 256, 2, 255, 513}
 
 // verifC04State builds an arbitrary cache state with n page slots.
 func verifC04State(n int, lock uint32, missing int) *DB {
@@ -118,8 +118,8 @@ func verifC04PickPage(tag string, n int) uint32 {
 	if n >= 257 {
 		cands = append(cands, 256, 257)
 	}
-	if rt.Tier() > 0 && n > 2 {
-		cands = append(cands, 2, uint32(n)-1)
+	if rt.Tier() > 0 && n == 3 {
+		cands = append(cands, 2)
 	}
 	return cands[rt.Choose(tag, len(cands))]
 }
@@ -130,7 +130,7 @@ func verifC04Run(stubLock bool) {
 		ns = len(verifC04Shapes)
 	}
 	n := verifC04Shapes[rt.Choose("slots", ns)]
-	big := n >= 255 && rt.Tier() == 0 // quick tier: block-boundary shapes with a reduced set of combinations
+	big := n >= 255 // block-boundary shapes: a reduced set of combinations (all four operations only in the thorough tier)
 	if stubLock && rt.Tier() == 0 && n != 3 && n != 257 {
 		rt.Assume(false)
 	}
@@ -147,15 +147,15 @@ func verifC04Run(stubLock bool) {
 	missing := -1
 	if n > 0 && !big && rt.Choose("missing", 2) == 1 {
 		missing = n - 1
-		if rt.Tier() > 0 && rt.Choose("missing.first", 2) == 1 {
+		if rt.Tier() > 0 && n <= 3 && rt.Choose("missing.first", 2) == 1 {
 			missing = 0
 		}
 	}
 	db := verifC04State(n, lock, missing)
 
 	maxEnt := 1
-	if rt.Tier() > 0 {
-		maxEnt = 2
+	if rt.Tier() > 0 && n == 3 {
+		maxEnt = 2 // two committed WAL entries: on the three-slot shape only
 	}
 	// committed WAL entries (stacks of 1..2)
 	for i, k := 0, rt.Choose("wal.entries", maxEnt+1); i < k; i++ {
@@ -167,13 +167,13 @@ func verifC04Run(stubLock bool) {
 		db.wal.chksums[p] = st
 	}
 	op := rt.Choose("op", 4)
-	if big && op != 0 && op != 2 {
+	if big && rt.Tier() == 0 && op != 0 && op != 2 {
 		rt.Assume(false)
 	}
 	// entries of the transaction being committed (only for the plain checksum op in the quick tier)
 	var newWAL map[uint32]ltx.Checksum
-	if op == 0 || rt.Tier() > 0 {
-		if k := rt.Choose("new.entries", maxEnt+1); k > 0 {
+	if op == 0 || (rt.Tier() > 0 && !big) {
+		if k := rt.Choose("new.entries", 2); k > 0 { // at most one entry of the transaction being committed
 			newWAL = map[uint32]ltx.Checksum{}
 			for i := 0; i < k; i++ {
 				p := verifC04PickPage("new.page", n)
